@@ -1023,4 +1023,115 @@ Section Proofs.
         subst b2. rewrite <- Ev in Hs. congruence.
   Qed.
 
+  (** ** From the outcome list back to one try *)
+
+  Notation worker_events := (worker_events D deqb pcr_init extend pcr0data st log target).
+  Notation level_outcomes := (level_outcomes D deqb pcr_init extend pcr0data st log target).
+  Notation level_workers := (level_workers D log).
+  Notation job_levels := (job_levels D deqb pcr_init extend pcr0data st log target).
+  Notation job := (job D deqb pcr_init extend pcr0data st log target).
+  Notation outcomes := (outcomes D deqb pcr_init extend pcr0data st log target).
+  Notation kmax := (kmax D st log).
+
+  Lemma worker_events_in cf loc combs c o :
+    In (Some (c, o)) (worker_events cf loc combs) ->
+    In c combs /\ In o (try_outcomes cf loc c) /\ is_event o = true.
+  Proof.
+    induction combs as [|c0 t IH]; cbn [PCR0Search.worker_events].
+    - intros [H|[]]; discriminate.
+    - rewrite in_app_iff, in_map_iff. intros [(o' & E & Ho)|H].
+      + inversion E; subst. apply filter_In in Ho. cbn. tauto.
+      + destruct (existsb is_tnone (try_outcomes cf loc c0)); [|destruct H].
+        destruct (IH H) as (H1 & H2). cbn. tauto.
+  Qed.
+
+  Definition from_try (cf loc : Z) (ws : list (list (list Z))) (r : result) : Prop :=
+    exists cs c reg sw, In cs ws /\ In c cs /\ In (TFound reg sw) (try_outcomes cf loc c) /\
+                        r = mkResult loc reg (disabled_of c) sw.
+
+  Lemma level_found cf loc ws r :
+    In (JFound r) (level_outcomes cf loc ws) -> from_try cf loc ws r.
+  Proof.
+    unfold PCR0Search.level_outcomes. rewrite !in_app_iff. intros [H|[H|H]].
+    - apply in_flat_map in H as (e & He & H). apply in_concat in He as (evs & Hevs & He).
+      apply in_map_iff in Hevs as (cs & <- & Hcs).
+      destruct e as [[c [|reg sw|]]|]; cbn in H; try tauto.
+      + destruct H as [H|[]]. inversion H; subst.
+        apply worker_events_in in He as (Hc & Ho & _). exists cs, c, reg, sw. tauto.
+      + destruct H as [H|[]]; discriminate.
+    - destruct (forallb _ _); [destruct H as [H|[]]; discriminate|destruct H].
+    - destruct (_ <? _); [destruct H as [H|[]]; discriminate|destruct H].
+  Qed.
+
+  Lemma job_found cf loc r : forall fuel k,
+    In (JFound r) (job_levels fuel k cf loc) ->
+    exists k' ws, (k <= k' < k + fuel)%nat /\ level_workers cf k' = Ok ws /\ from_try cf loc ws r.
+  Proof.
+    induction fuel as [|f IH]; intros k H; cbn [PCR0Search.job_levels] in H.
+    - destruct H as [H|[]]; discriminate.
+    - destruct (level_workers cf k) as [ws| | |] eqn:Ew; try (destruct H as [H|[]]; discriminate).
+      apply in_flat_map in H as (o & Ho & H).
+      destruct o; try (destruct H as [H|[]]; try discriminate).
+      + inversion H; subst. exists k, ws. split; [lia|]. split; [exact Ew|]. now apply level_found.
+      + destruct (IH _ H) as (k' & ws' & Hk & Hw & Hf). exists k', ws'. split; [lia|]. tauto.
+  Qed.
+
+  Lemma in_j_founds r l : In (FSome r) (j_founds l) <-> In (JFound r) l.
+  Proof.
+    unfold j_founds. rewrite in_flat_map. split.
+    - intros (o & Ho & H). destruct o; cbn in H; try tauto. destruct H as [H|[]]. inversion H; now subst.
+    - intro H. exists (JFound r). split; [exact H|now left].
+  Qed.
+
+  Lemma outcomes_found cf r :
+    In (FSome r) (outcomes cf) -> exists loc, (loc = 0 \/ loc = 3) /\ In (JFound r) (job cf loc).
+  Proof.
+    unfold PCR0Search.outcomes. rewrite !in_app_iff, !in_j_founds. intros [H|[H|[H|[H|H]]]].
+    - exists 0. tauto.
+    - exists 3. tauto.
+    - destruct (_ && _); [destruct H as [H|[]]; discriminate|destruct H].
+    - destruct (_ || _); [destruct H as [H|[]]; discriminate|destruct H].
+    - destruct (_ || _); [destruct H as [H|[]]; discriminate|destruct H].
+  Qed.
+
+  Lemma swaps_wf_range n sw s : swaps_wf n sw s -> Forall (fun i => (i < n)%nat) (swap_idx s).
+  Proof. intros (_ & H & _). eapply Forall_impl; [|exact H]. cbn. tauto. Qed.
+
+  (** ** Soundness *)
+
+  Lemma try_sound cf loc comb reg sw :
+    acm_unique cf -> In (TFound reg sw) (try_outcomes cf loc comb) ->
+    replay_result (mkResult loc reg (disabled_of comb) sw) = target.
+  Proof.
+    intros Hu H. apply try_found in H as (s & s' & -> & Hsp & Hwf & Heq).
+    rewrite (Heq Hu) in Hsp. destruct Hsp as (_ & _ & _ & Hr).
+    unfold PCR0Search.replay_result. cbn [r_loc].
+    rewrite apply_result_eq; [exact Hr|]. eapply swaps_wf_range; eauto.
+  Qed.
+
+  Theorem sound cf r :
+    acm_unique cf -> In (FSome r) (outcomes cf) ->
+    replay_result r = target /\ (r_loc r = 0 \/ r_loc r = 3).
+  Proof.
+    intros Hu H. apply outcomes_found in H as (loc & Hloc & H).
+    apply job_found in H as (k & ws & _ & _ & cs & c & reg & sw & _ & _ & Ht & ->).
+    split; [now apply (try_sound cf)|exact Hloc].
+  Qed.
+
+  (** without any assumption on the hash: locality, register and disabled
+      measurements of every reported result are right; there are swaps that
+      make the replay match *)
+  Theorem sound_upto_swaps cf r :
+    In (FSome r) (outcomes cf) ->
+    exists sw', replay_result (mkResult (r_loc r) (r_reg r) (r_disabled r) sw') = target.
+  Proof.
+    intro H. apply outcomes_found in H as (loc & Hloc & H).
+    apply job_found in H as (k & ws & _ & _ & cs & c & reg & sw & _ & _ & Ht & ->).
+    apply try_found in Ht as (s & s' & -> & Hsp & _ & _).
+    destruct Hsp as (Hwf & _ & _ & Hr).
+    exists (shift_swaps (idx_shifts (enabled_flags c) 0) s'). cbn [r_loc r_reg r_disabled].
+    unfold PCR0Search.replay_result. cbn [r_loc].
+    rewrite apply_result_eq; [exact Hr|]. eapply swaps_wf_range; eauto.
+  Qed.
+
 End Proofs.
